@@ -59,6 +59,14 @@ F_OKORDER, F_TOPK, F_OKTOPK, F_INIT, F_CONT, F_STEP, F_FINAL, F_OKGREEDY, F_NOWO
 CAP = 60           # rounds after which the model-driven run is declared "out of fuel"
 WATCHDOG = 2.0     # CPU seconds for one implementation call (a terminating call of <= CAP rounds needs a few 10 ms)
 warnings.filterwarnings("ignore")
+try:  # imported once in the parent: the forked workers inherit the modules (the import alone can take a minute on a loaded machine)
+    import deephyper.ensemble  # noqa: F401
+    import deephyper.ensemble.selector  # noqa: F401
+    import deephyper.ensemble.aggregator  # noqa: F401
+    import deephyper.ensemble.loss  # noqa: F401
+    import deephyper.predictor  # noqa: F401
+except Exception:  # reported by the first case that needs it
+    pass
 
 
 # ------------------------------------------------------------------ watchdog
@@ -595,6 +603,8 @@ def gen_opts(rng, n, kind, i):
     k = k_init + rng.choice([1, 2, 3, 5, 10]) if rng.random() < 0.8 else rng.choice([1, 2, 3, 5])
     es, repl, bag = bool(i & 1), bool(i & 2), bool(i & 4)
     max_it = rng.choice([-1] * 12 + [0, 1, 1, 3, 3, 10, 10])
+    if not es and repl and max_it < 0 and rng.random() < 0.6:
+        max_it = rng.choice([1, 3, 10, 30])  # the class that may run for ever costs one watchdog period per case: keep it at ~6 %
     if kind == "table":
         eps = rng.choice([0.0, 0.0, 1e-3, 1.0, 2.0])
     else:
@@ -613,6 +623,8 @@ def gen_case(rng, i, small=False):
     if kind == "table":
         mode = rng.choice(["hash2", "hash4", "hash16", "hash64", "shash8", "shash64", "weight_of:%d" % rng.randrange(n)])
         case = dict(kind=kind, preds=[0] * n, table=mode, salt=str(rng.randint(0, 10 ** 6)))
+        if mode.startswith("weight_of"):
+            case["_frac_loss"] = True  # not integer valued: eps_tol = 0 would allow an endless strictly decreasing run
     else:
         y, preds = gen_values(rng, kind, n, msamp, rng.choice(STYLES))
         case = dict(kind=kind, y=y, preds=preds)
@@ -627,6 +639,8 @@ def gen_greedy(count):
         for i in range(k):
             case, n = gen_case(rng, i, small=(tier == "search"))
             case["opts"] = gen_opts(rng, n, case["kind"], rng.randrange(8))
+            if case.pop("_frac_loss", False) and case["opts"]["eps_tol"] == 0.0:
+                case["opts"]["eps_tol"] = 1e-3  # termination with early stopping is claimed for eps_tol > 0 only
             yield case
     return gen
 
@@ -636,6 +650,7 @@ def gen_topk(count):
         for i in range(count):
             case, n = gen_case(rng, i, small=(tier == "search"))
             case["k"] = rng.choice([1, 2, 3, 5, 12, 20])
+            case.pop("_frac_loss", None)
             yield case
     return gen
 
@@ -723,8 +738,8 @@ def shrink_online(case):
 def streams(tier):
     th = tier == "thorough"
     return [
-        Stream("topk", mark_search(gen_topk(3000 if th else 300)), searching("topk", check_topk), shrink_sel, timeout=60),
-        Stream("greedy", mark_search(gen_greedy(5000 if th else 400)), searching("greedy", check_greedy), shrink_sel, timeout=120),
-        Stream("online", mark_search(gen_online(600 if th else 60)), searching("online", check_online), shrink_online, timeout=240),
-        Stream("predictor_order", gen_predictor(5 if th else 4), check_predictor, None, timeout=60),
+        Stream("topk", mark_search(gen_topk(3000 if th else 300)), searching("topk", check_topk), shrink_sel, timeout=240),
+        Stream("greedy", mark_search(gen_greedy(3000 if th else 400)), searching("greedy", check_greedy), shrink_sel, timeout=240),
+        Stream("online", mark_search(gen_online(400 if th else 60)), searching("online", check_online), shrink_online, timeout=240),
+        Stream("predictor_order", gen_predictor(5 if th else 4), check_predictor, None, timeout=240),
     ]
